@@ -42,7 +42,7 @@ func vParam(allowEch, allowFree bool) string {
 		return "ipv4hint=1.2.3.4"
 	}
 	// free-form parameter: symbolic bytes over the alphabet {e,c,h,=,",a,1}
-	n := vInt(1, 3)
+	n := vInt(1, 3+vTier())
 	b := vBytes(n)
 	for _, c := range b {
 		vAssume(c == 'e' || c == 'c' || c == 'h' || c == '=' || c == '"' || c == 'a' || c == '1')
@@ -71,13 +71,11 @@ func verifC20Publish() {
 	nrec := vInt(1, 2)
 	for i := 0; i < nrec; i++ {
 		np := vInt(0, 2)
-		if i == 1 {
-			np = vInt(0, 1) // thorough tier: the second record varies too, with at most one parameter
-		}
+
 		val := ""
 		hasEch := false
-		if i == 1 && vTier() == 0 {
-			// quick tier: the second record is fixed (a stale ech entry between two parameters)
+		if i == 1 {
+			// the second record is fixed (a stale ech entry between two parameters)
 			np = 0
 			val = `alpn="h2" ech="T0xE" port=8443`
 		}
